@@ -1,9 +1,9 @@
 /-
 C02 — the compiled automaton recognises exactly the grammar's language, labels included.
-(Provisional: completed when Proofs/RxOfExpr.lean lands.)
 -/
 import Complgen.Proofs.Glushkov
 import Complgen.Proofs.Subset
+import Complgen.Proofs.RxOfExpr
 namespace Complgen.Props.C02
 open Complgen
 
@@ -24,5 +24,36 @@ theorem subset_construction_correct (σ : Schedule) (r : Regex) (symOf : Nat →
     (h : buildAuto σ r symOf = some a) :
     ∀ w : List Inp, a.acceptsInp w = true ↔ PosAccepts r.first r.follow r.endPos symOf w :=
   buildAuto_correct σ r symOf a hsym hend hfollow hfirst h
+
+/-- the regular expression `do_from_expr` builds means what the grammar expression means
+(`Optional ↦ Or[x, ε]`, `Many1 ↦ Cat[x, Star x]`, `||` and `|` ↦ `Or`), over the leaf numbering -/
+theorem rx_of_expr_lang (e : Expr) (ins : List RxInput) (pool : RxPool) (ps : List Nat) :
+    (rxOfExpr e (ins, pool)).1.Lang ps ↔ e.denPos ins.length ps :=
+  rxOfExpr_lang e ins pool ps
+
+/-- positions are pairwise distinct and the end marker is fresh -/
+theorem of_expr_linear (e : Expr) (pool : RxPool) :
+    (Regex.ofExpr e pool).1.root.Linear ∧
+    (Regex.ofExpr e pool).1.endPos ∉ (Regex.ofExpr e pool).1.root.positions ∧
+    (Regex.ofExpr e pool).1.inputs.length = e.leafCount :=
+  Regex.ofExpr_linear e pool
+
+/-- **The raw automaton of the model, for every work-list order, accepts exactly the label
+sequences of the words of the (validated) grammar expression** — labels = the symbol of each
+leaf (literal text + description + level, command text + level, any-word, within-word automaton
++ level). -/
+theorem C02_raw_model (σ : Schedule) (e : Expr) (pool : RxPool) (symOf : Nat → Option Inp) (a : Auto)
+    (hsym : ∀ p, p < e.leafCount → (symOf p).isSome)
+    (hend : symOf e.leafCount = none)
+    (h : buildAuto σ (Regex.ofExpr e pool).1 symOf = some a) :
+    ∀ w : List Inp, a.acceptsInp w = true ↔ ∃ ps, e.denPos 0 ps ∧ ps.map symOf = w.map some :=
+  raw_automaton_correct σ e pool symOf a hsym hend h
+
+/-- Non-vacuity: `a [b]` — the model builds an automaton, and the theorem's premises hold for it. -/
+example :
+    let e : Expr := .seq (.cons (.term "a" none 0 default) (.cons (.opt (.term "b" none 0 default) default) .nil)) default
+    let symOf : Nat → Option Inp := fun p => if p = 0 then some (.lit "a" none 0) else if p = 1 then some (.lit "b" none 0) else none
+    (buildAuto fifo (Regex.ofExpr e []).1 symOf).isSome = true ∧ e.leafCount = 2 := by
+  decide
 
 end Complgen.Props.C02
